@@ -25,7 +25,7 @@ type Options struct {
 	OrderPolicy int // 0 ascending, 1 descending, 2 rotate-by-one
 	MaxViol     int
 	SampleEvery int
-	Labels      map[string]bool // nil = all labels checked
+	LabelPrefixes []string // nil/empty = all labels checked
 	PanicIsViolation bool
 	Verbose     bool
 }
@@ -34,6 +34,20 @@ type Decision struct {
 	Kind byte   // 'b' branch, 'c' choose, 'v' concretized value
 	Val  uint64 // branch: 1 = true; choose: index; value: the value
 }
+
+func (o *Options) labelSelected(label string) bool {
+	if len(o.LabelPrefixes) == 0 {
+		return true
+	}
+	for _, p := range o.LabelPrefixes {
+		if p == "*" || strings.HasPrefix(label, p) {
+			return true
+		}
+	}
+	return false
+}
+
+func DecStr(ds []Decision) string { return decStr(ds) }
 
 func decStr(ds []Decision) string {
 	var sb strings.Builder
@@ -137,6 +151,7 @@ type Explorer struct {
 	MapRangeSites map[string]bool
 	Recovered   int
 	Stubs       map[string]int
+	HasInternalVars bool
 }
 
 func NewExplorer(p *Program, name string, fn *ssa.Function, opt Options) *Explorer {
@@ -395,10 +410,24 @@ func (r *Run) captureModel() {
 			}
 		}
 	}()
-	m, res := r.modelFor(r.in.ctx.T)
+	m, res := r.modelFor(r.smallBlobs())
+	if res != solver.Sat {
+		m, res = r.modelFor(r.in.ctx.T)
+	}
 	if res == solver.Sat {
 		r.finalModel = m
 	}
+}
+
+// smallBlobs is a preference (not an assumption): models used for native
+// replay should have payload lengths the native harness can allocate.
+func (r *Run) smallBlobs() *sym.Term {
+	c := r.in.ctx
+	parts := []*sym.Term{}
+	for _, l := range r.blobLens {
+		parts = append(parts, c.ULe(l, c.Const(4096, 64)))
+	}
+	return c.And(parts...)
 }
 
 func (r *Run) solverUnknown(what string) {
@@ -563,7 +592,7 @@ func (r *Run) Assume(c *sym.Term) {
 
 // Assert discharges an obligation.
 func (r *Run) Assert(c *sym.Term, label string, site ssa.Instruction) {
-	if r.ex.Opt.Labels != nil && !r.ex.Opt.Labels[label] && !r.ex.Opt.Labels["*"] {
+	if !r.ex.Opt.labelSelected(label) {
 		// label not selected by this check: treated as not asserted
 		return
 	}
@@ -584,6 +613,11 @@ func (r *Run) Assert(c *sym.Term, label string, site ssa.Instruction) {
 		}
 	default:
 		m, res := r.modelFor(r.in.ctx.Not(c))
+		if res == solver.Sat && len(r.blobLens) > 0 {
+			if m2, res2 := r.modelFor(r.in.ctx.And(r.in.ctx.Not(c), r.smallBlobs())); res2 == solver.Sat {
+				m = m2
+			}
+		}
 		switch res {
 		case solver.Unsat:
 			rec.Verdict = "proved"
@@ -703,6 +737,9 @@ func (ex *Explorer) record(r *Run) {
 	}
 	for k, v := range r.bounds {
 		ex.Bounds[k] = v
+	}
+	if r.nRnd > 0 {
+		ex.HasInternalVars = true
 	}
 	switch r.status {
 	case "unsupported", "budget", "unwind", "solver":
